@@ -47,7 +47,7 @@ open ShpanVerif.Model.Period ShpanVerif.Proofs.Period
 kind `k`. -/
 def NoTouchStarts (z : Zone) (k : Kind) : Prop := ∀ P, IsStartDay k P → NoTouchAt z P
 
-theorem NoTouch.starts {z : Zone} (h : NoTouch z) (k : Kind) : NoTouchStarts z k := fun P _ => h.at P
+theorem NoTouchStarts.of_noTouch {z : Zone} (h : NoTouch z) (k : Kind) : NoTouchStarts z k := fun P _ => h.at P
 
 /-- executable form: `noTouchStarts (gridOf k) z = true` decides `NoTouchStarts z k` (soundly) -/
 theorem NoTouchStarts.of_check {z : Zone} {k : Kind} (h : noTouchStarts (gridOf k) z = true) : NoTouchStarts z k :=
@@ -66,7 +66,7 @@ every period start of every kind.  `Spaced B z` is the separation hypothesis (ne
 intermediate additionally needs `NoSpill z` (needed, see below). -/
 theorem no_midnight_touch_MidnightsOK {B : Int} {z : Zone} (hs : ZoneSorted z) (hsp : Spaced B z) (hn : NoTouch z)
     (k : Kind) (hw : k = .week → NoSpill z) : MidnightsOK z k :=
-  no_period_start_touch_MidnightsOK hs hsp (hn.starts k) hw
+  no_period_start_touch_MidnightsOK hs hsp (NoTouchStarts.of_noTouch hn k) hw
 
 /-- all kinds at once -/
 theorem no_midnight_touch_MidnightsOK_all {B : Int} {z : Zone} (hs : ZoneSorted z) (hsp : Spaced B z) (hn : NoTouch z)
